@@ -129,6 +129,8 @@ def validate_part(ctx, t):
 
 def describe(fl):
     ev = json.loads(fl["line"])
+    if ev.get("ev") == "hang":
+        return "c12:hang", "a read of a (damaged) journal never returned: %s" % ev.get("where")
     if ev.get("ev") == "panic":
         return "c12:panic:%s" % ev.get("where", "?").split()[0], "the real code panicked (%s): %s" % (ev.get("where"), ev.get("what"))
     if ev.get("ev") == "w":
@@ -171,7 +173,7 @@ def main(ctx):
     missing = [k for k in ["residue_%d" % r for r in range(8)] + ["empty_records", "multi_block_records", "strict_errors",
                                                                      "trials_with_loss", "tails", "multi", "flips"]
                if stats.get(k, 0) == 0]
-    if missing:
+    if missing and not any(x.get("hung") or x.get("panicked") for x in sums):
         raise HarnessError("generated sequences / damage trials did not reach: %s" % missing)
     log("C12: driver done at %.0f s: %d damage trials, %d trace lines" % (time.time() - ctx.t0, stats.get("reads", 0) // 2, stats.get("lines", 0)))
     results = parallel(lambda s: validate_part(ctx, s), sums, workers=min(ncpu(), 12))
